@@ -108,6 +108,38 @@ theorem c20_managed_owner (P : Prog) (wf : WF P) (s : State) (h : Reachable P s)
   rw [oPlus_sum P k s hk] at this
   simpa [hoe_iff] using this
 
+/-- **Repeated library init.** `aws_common_library_init` on the initialised library (which every dependent
+library issues) leaves the managed-thread count, the pending-join list, the lock and every other thread alone —
+whatever is parked in the pending list stays there for the next lazy join / join-all. -/
+theorem c20_init_idempotent (P : Prog) (s s' : State) (t : Nat) (rest : List Instr)
+    (h : exec P s t .libInit rest = some s') :
+    s'.count = s.count ∧ s'.pending = s.pending ∧ s'.lockOwner = s.lockOwner ∧ s'.log = s.log ∧
+      ∀ k, k ≠ t → s'.th k = s.th k := by
+  simp only [exec, Option.some.injEq] at h
+  subst h
+  exact ⟨rfl, rfl, rfl, rfl, fun k hk => by simp [upd_apply, hk]⟩
+
+/-- **call_once.** The first `aws_thread_call_once` on a flag runs the callback on the calling thread: its at-exit
+registrations become ordinary registrations of that thread (so `c20_atexit` covers them: each runs exactly once at
+that thread's exit, LIFO with the thread's other registrations); every later call on the flag does nothing. -/
+theorem c20_call_once (P : Prog) (s s' : State) (t id : Nat) (rest : List Instr)
+    (h : exec P s t (.onceCall id) rest = some s') :
+    s'.onceDone id = true ∧ (s.onceDone id = true → (s'.th t).code = rest ∧ (s'.th t).chain = (s.th t).chain) ∧
+    (s.onceDone id = false → ∃ regs : List Nat, regs = (P.onceRegs id).take 2 ∧
+      (s'.th t).code = regs.map (fun c => Instr.act (.atexit c)) ++ rest) := by
+  simp only [exec] at h
+  split at h
+  · rename_i hd
+    simp only [Option.some.injEq] at h; subst h
+    exact ⟨by simp [cont, pushW, hd], fun _ => by simp, fun hf => by rw [hd] at hf; cases hf⟩
+  · rename_i hd
+    simp only [Option.some.injEq] at h; subst h
+    refine ⟨by simp [cont, pushW], fun ht => absurd ht hd, fun _ => ⟨_, rfl, ?_⟩⟩
+    simp only [pushW_th, cont_th, upd_same]
+    cases P.onceRegs id with
+    | nil => rfl
+    | cons a r => cases r <;> rfl
+
 /-- c20_managed_inv = accounting + ownership -/
 theorem c20_managed_inv (P : Prog) (wf : WF P) (s : State) (h : Reachable P s) :
     (s.count + inflightMinus P s = liveManaged P s + inflightPlus P s ∧ s.pending.length ≤ 1) ∧
@@ -256,12 +288,15 @@ theorem c20_join_all_snapshot (P : Prog) (s : State) (k : Nat) :
 /-! ### The hypotheses are satisfiable: a concrete execution reaching a successful join-all -/
 
 /-- main launches two managed threads (the first one pinned to a cpu that cannot be honoured: its first
-`pthread_create` fails and the launch is retried unpinned; both are named; it registers two at-exit callbacks and launches the second) and
+`pthread_create` fails and the launch is retried unpinned; both are named; it calls a once-flag
+(twice; thread 2 calls it too) whose callback registers at-exit callback 9, and re-initialises the library; it registers two at-exit callbacks and launches the second) and
 calls join-all -/
 def demo : Prog :=
   { n := 3
     managed := fun k => k == 1 || k == 2
-    body := fun k => if k = 0 then [.launch 1 true 1 true, .joinAll, .getCount] else if k = 1 then [.atexit 7, .atexit 8, .launch 2 false 0 true] else [] }
+    onceRegs := fun i => if i = 0 then [9] else []
+    body := fun k => if k = 0 then [.launch 1 true 1 true, .libInit, .joinAll, .getCount]
+      else if k = 1 then [.atexit 7, .once 0, .once 0, .atexit 8, .launch 2 false 0 true, .libInit] else [.once 0] }
 
 example : WF demo := ⟨by decide, by decide⟩
 
@@ -272,7 +307,7 @@ both managed threads joined, callbacks 8 then 7 run on thread 1, count 0, nothin
 example :
     let s := drive demo 200 (init demo)
     s.log.contains (Ev.joinAllRet 0 true [2, 1]) = true ∧ (s.th 1).status = .joined ∧ (s.th 2).status = .joined ∧
-    cbsOf 1 s.log = [7, 8] ∧ s.count = 0 ∧ s.wLive = 0 ∧ s.cbLive = 0 ∧ s.misuse = 0 := by
+    cbsOf 1 s.log = [7, 9, 8] ∧ cbsOf 2 s.log = [] ∧ s.count = 0 ∧ s.wLive = 0 ∧ s.cbLive = 0 ∧ s.misuse = 0 := by
   decide
 
 /-! ### `c20_no_deadlock`: the hypothesis is satisfiable, and `joinByLauncher` cannot be dropped -/
